@@ -518,29 +518,40 @@ SWEEP_ARGS = {
 }  # fmt: skip
 
 
-def sweep_count(max_len=4):
-    n = len(SWEEP_ALPHABET)
+# the core alphabet is swept COMPLETELY up to length 4 (12^1+..+12^4 = 22 620
+# sequences per structure); the wide one completely up to length 3, length 4
+# as a seeded-stride sample
+SWEEP_CORE = [
+    "uc_atoms", "conn", "uc_mols", "sym_mols", "menv", "density", "cif", "sl_res",
+    "toH", "toR", "deepcopy", "pickle",
+]  # fmt: skip
+SWEEP_ALPHABETS = {"wide": SWEEP_ALPHABET, "core": SWEEP_CORE}
+
+
+def sweep_count(max_len=4, which="wide"):
+    n = len(SWEEP_ALPHABETS[which])
     return sum(n ** k for k in range(1, max_len + 1))
 
 
-def sweep_sequence(index, max_len=4):
-    n = len(SWEEP_ALPHABET)
+def sweep_sequence(index, max_len=4, which="wide"):
+    alphabet = SWEEP_ALPHABETS[which]
+    n = len(alphabet)
     for k in range(1, max_len + 1):
         if index < n ** k:
             seq = []
             for _ in range(k):
                 index, d = divmod(index, n)
-                seq.append(SWEEP_ALPHABET[d])
+                seq.append(alphabet[d])
             return seq[::-1]
         index -= n ** k
     raise IndexError(index)
 
 
-def sweep_run(source_i, index, max_len=4):
+def sweep_run(source_i, index, max_len=4, which="wide"):
     """Every sequence of length <= max_len over SWEEP_ALPHABET: operations go to
     the newest handle (forks are followed), then every handle is audited."""
     spec = SWEEP_SOURCES[source_i]
-    seq = sweep_sequence(index, max_len)
+    seq = sweep_sequence(index, max_len, which)
     audit_q = ["uc_atoms", "uc_mols", "sym_mols", "menv", "density", "as_P1", "cif", "sl_res", "poscar"]
     state = {"i": 0, "audit": None}
 
@@ -555,4 +566,4 @@ def sweep_run(source_i, index, max_len=4):
             state["audit"] = iter(audit_steps(len(sim.world), audit_q))
         return next(state["audit"], None)
 
-    return _drive(spec, dict(SWEEP_ARGS), "sweep%d" % source_i, index, producer)
+    return _drive(spec, dict(SWEEP_ARGS), "sweep%s%d" % ("core" if which == "core" else "", source_i), index, producer)
